@@ -651,3 +651,60 @@ def project(t):
         if isinstance(inner, tuple) and inner and inner[0] == "agg" and inner[1] == "adt" and inner[3] == t[1][2] and len(inner[4]) == 1:
             return inner[4][0]           # (Some{x} as Some).0 -> x
     return t
+
+
+def unwrap_option_term(t):
+    """the value of `t.unwrap()` / `t.expect(..)` for a gated Option-valued term: `Some{v}` leaves become v, `None` leaves (the
+    refusing paths) are dropped, the gating is kept"""
+    t0 = strip(t)
+    if isinstance(t0, tuple) and t0 and t0[0] in ("gamma", "phi"):
+        arms = []
+        for lab, v in t0[2]:
+            u = unwrap_option_term(v)
+            if u is not None:
+                arms.append((lab, u))
+        if not arms:
+            return None
+        if len(arms) == 1:
+            return arms[0][1]
+        return (t0[0], t0[1], tuple(arms)) + tuple(t0[3:])
+    if isinstance(t0, tuple) and t0 and t0[0] == "agg" and t0[1] == "adt" and t0[3] == "None":
+        return None
+    if isinstance(t0, tuple) and t0 and t0[0] == "agg" and t0[1] == "adt" and t0[3] == "Some" and len(t0[4]) == 1:
+        return t0[4][0]
+    return payload(t0)
+
+
+def through_checked(prog, t, depth=2):
+    """`checked_variant(args).expect(..)` (also `.unwrap()`, `.unwrap_or_else(|| panic!(..))`) read as the value the checked
+    variant of a crate function returns on its accepting paths, with the arguments in place; other terms unchanged"""
+    t0 = strip(t)
+    if depth and mir.is_call(t0) and t0[1].name in ("unwrap", "expect", "unwrap_unchecked", "unwrap_or_else") and t0[2] and \
+            "ption" in (t0[1].def_ or ""):
+        if t0[1].name == "unwrap_or_else" and len(t0[2]) == 2:
+            g, _ = closure_fn(prog, t0[2][1])
+            if g is None or g.cfg.returns:
+                return t
+        inner = strip(t0[2][0])
+        if mir.is_call(inner) and (inner[1].local or getattr(inner[1], "res_local", False)):
+            hs = [h for h in prog.resolve(inner[1]) if "{closure" not in h.npath]
+            if len(hs) == 1 and hs[0].terms.ret is not None and not _calls(hs[0].terms.ret, hs[0]):
+                body = subst(hs[0].terms.ret, {i + 1: a for i, a in enumerate(inner[2])})
+                u = unwrap_option_term(body)
+                if u is not None:
+                    return through_checked(prog, lift_field_joins(u), depth - 1)
+    return t
+
+
+def lift_field_joins(t, depth=0):
+    """`γ(c | a, b).f` is `γ(c | a.f, b.f)`: projections are pushed into the arms of a choice, so that a term built by
+    substitution has the shape the same code has when written out"""
+    if not isinstance(t, tuple) or not t or depth > 30:
+        return t
+    if t[0] == "call":
+        return (t[0], t[1], tuple(lift_field_joins(a, depth + 1) for a in t[2])) + tuple(t[3:])
+    t = tuple(lift_field_joins(a, depth + 1) if isinstance(a, tuple) else a for a in t)
+    if t[0] in ("field", "as") and isinstance(t[1], tuple) and t[1] and t[1][0] == "gamma":
+        g = t[1]
+        return ("gamma", g[1], tuple((lab, lift_field_joins((t[0], v) + tuple(t[2:]), depth + 1)) for lab, v in g[2])) + tuple(g[3:])
+    return t
